@@ -630,3 +630,78 @@ func TestExhaustiveTruncation(t *testing.T) {
 		})
 	})
 }
+
+// TestInterleavedDecoders: two or three Decoder objects over different streams
+// are used alternately (a drawn schedule of calls); every call is judged at
+// its own decoder's position. State must not leak between decoders.
+func TestInterleavedDecoders(t *testing.T) {
+	rapid.Check(t, func(t *rapid.T) {
+		core.Run(t, "cbor/interleaved-decoders", func(c *core.Ctx) {
+			n := c.Int("ndecoders", 2, 3)
+			type dec struct {
+				stream []byte
+				src    source
+				d      *verifhook.CborDecoder
+				done   bool
+				kept   [][2][]byte
+			}
+			ds := make([]*dec, n)
+			for i := range ds {
+				st, _ := buildStream(c, 5)
+				if c.Chance("truncate", 1, 4) && len(st) > 1 {
+					st = st[:c.Int("truncateAt", 1, len(st)-1)]
+					c.Fault("chan-truncate")
+				}
+				src, _ := drawSource(c, st, core.ReaderPlan{ErrAt: -1, Mode: c.Pick("mode", 2) * 3})
+				ds[i] = &dec{stream: st, src: src, d: verifhook.NewCborDecoder(src.r)}
+			}
+			var sched []byte
+			for step := 0; step < 40; step++ {
+				var live []int
+				for i, d := range ds {
+					if !d.done {
+						live = append(live, i)
+					}
+				}
+				if len(live) == 0 {
+					break
+				}
+				i := live[c.Pick("sched.next", len(live))]
+				d := ds[i]
+				sched = append(sched, byte('0'+i))
+				pos := d.src.consumed()
+				major, _, _, _, _ := refcbor.Head(d.stream, pos)
+				k := matching(major)
+				var r callResult
+				pi := c.Guard("cbor."+callNames[k], func() { r = doCall(d.d, k) })
+				if pi != nil {
+					if c.Oracle("C10", "C12") {
+						c.CheckTotal("cbor."+callNames[k], len(d.stream), pi, 0)
+					}
+					d.done = true
+					continue
+				}
+				if c.Oracle("C12") {
+					judge(c, d.stream, pos, k, r, d.src.consumed(), true)
+				}
+				if r.err == nil && (k == callBytes) {
+					d.kept = append(d.kept, [2][]byte{r.b, append([]byte(nil), r.b...)})
+				}
+				if r.err != nil || d.src.consumed() >= len(d.stream) {
+					d.done = true
+				}
+			}
+			if c.Oracle("C12") {
+				for i, d := range ds {
+					for _, kv := range d.kept {
+						if !bytes.Equal(kv[0], kv[1]) {
+							c.Violation("result-changed-later", "DecodeByteString", "a byte string returned by decoder %d was modified by later calls (schedule %s)", i, sched)
+						}
+					}
+				}
+			}
+			c.Outcome("nt:done")
+			c.Sig("%s", sched)
+		})
+	})
+}
